@@ -4,7 +4,8 @@
 //! changes what the oracle sees. `VBuf::Virt` describes `len` entity bytes starting at `off`
 //! without materialising them: the crate under test only ever calls `remaining()` on entity
 //! data, so a 2^64-1 byte entity can be "served" with no memory, and the oracle compares
-//! descriptors (offset, length) instead of bytes.
+//! descriptors (offset, length) instead of bytes. Virtual buffers are also non-contiguous `Buf`s:
+//! `chunk()` returns only the first half of what `remaining()` counts.
 
 use bytes::{Buf, Bytes};
 use std::sync::OnceLock;
@@ -77,7 +78,10 @@ impl Buf for VBuf {
         match self {
             VBuf::Real(b) => b.chunk(),
             VBuf::Virt { off, len, rendered } => {
-                let n = (*len).min(RENDER_MAX) as usize;
+                // Deliberately NON-CONTIGUOUS: a buffer of two or more bytes exposes only its
+                // first half as the current chunk (`Buf` permits any non-empty prefix), so code
+                // that mistakes `chunk().len()` for `remaining()` is wrong on every such buffer.
+                let n = if *len >= 2 { len.div_ceil(2).min(RENDER_MAX) } else { *len } as usize;
                 &rendered.get_or_init(|| Bytes::from(content_vec(*off, n)))[..]
             }
         }
